@@ -11,6 +11,7 @@ import GojaModel.C11.Model
 import GojaModel.C11.Lemmas
 import GojaModel.C11.Forward
 import GojaModel.C11.Ordinary
+import GojaModel.C11.Exotic
 
 namespace GojaModel.C11
 
@@ -211,14 +212,14 @@ variable {σ : Type} {q : Queries σ} {T : Ops σ}
 
 local notation "L" => proxyLayer isCompatible toValueProp (fun (_ : Trap) (s : σ) => s)
 
-theorem layer_getProto (h : Lawful q T) : (L T).getProto = T.getProto := by
+theorem layer_getProto (h : LawfulCore q T) : (L T).getProto = T.getProto := by
   funext s
   simp only [proxyLayer, h.getProto_eq, h.isExt_eq, bindR_ok]
   cases q.ext s
   · cases q.proto s <;> simp [mechGetProto, toObject?, sameObj]
   · simp
 
-theorem layer_setProto (h : Lawful q T) : (L T).setProto = T.setProto := by
+theorem layer_setProto (h : LawfulCore q T) : (L T).setProto = T.setProto := by
   funext p s
   simp only [proxyLayer]
   rcases hr : T.setProto p s with ⟨r, s'⟩
@@ -232,12 +233,12 @@ theorem layer_setProto (h : Lawful q T) : (L T).setProto = T.setProto := by
       · simp [he]
       · cases q.ext s' <;> simp [mechSetProto, sameObj, hp]
 
-theorem layer_isExt (h : Lawful q T) : (L T).isExt = T.isExt := by
+theorem layer_isExt (h : LawfulCore q T) : (L T).isExt = T.isExt := by
   funext s
   simp only [proxyLayer, h.isExt_eq, bindR_ok]
   cases q.ext s <;> simp [mechIsExtensible]
 
-theorem layer_prevExt (h : Lawful q T) : (L T).prevExt = T.prevExt := by
+theorem layer_prevExt (h : LawfulCore q T) : (L T).prevExt = T.prevExt := by
   funext s
   simp only [proxyLayer]
   rcases hr : T.prevExt s with ⟨r, s'⟩
@@ -248,7 +249,7 @@ theorem layer_prevExt (h : Lawful q T) : (L T).prevExt = T.prevExt := by
     · simp
     · simp [h.isExt_eq, h.prevExt_inv s s' hr, mechPreventExtensions]
 
-theorem layer_getOwn (h : Lawful q T) : (L T).getOwn = T.getOwn := by
+theorem layer_getOwn (h : LawfulCore q T) : (L T).getOwn = T.getOwn := by
   funext k s
   simp only [proxyLayer, h.getOwn_eq, h.isExt_eq, bindR_ok]
   cases hc : q.own k s with
@@ -257,8 +258,9 @@ theorem layer_getOwn (h : Lawful q T) : (L T).getOwn = T.getOwn := by
     obtain ⟨r, hr, hrc⟩ := gopd_honest c (q.ext s)
     simp [optCurToTProp, hr, TProp.toOptCur, hrc]
 
-theorem layer_define (h : Lawful q T) : (L T).define = T.define := by
-  funext k d s
+theorem layer_define_at (h : LawfulCore q T) (k : Key) (d : PD) (s : σ)
+    (hinv : ∀ s', T.define k d s = (.ok true, s') → specDefineCheck (q.own k s') (q.ext s') d = .ok ()) :
+    (L T).define k d s = T.define k d s := by
   simp only [proxyLayer]
   by_cases hwf : d.WF
   · rcases hr : T.define k d s with ⟨r, s'⟩
@@ -268,14 +270,18 @@ theorem layer_define (h : Lawful q T) : (L T).define = T.define := by
       cases b
       · simp
       · simp only [bindR_ok, h.getOwn_eq, h.isExt_eq]
-        have hspec := h.define_inv k d s s' hr
+        have hspec := hinv s' hr
         have hm : mechDefine isCompatible (optCurToTProp (q.own k s')) (q.ext s') d.toDesc true false = .ok true := by
           rw [define_eq_spec _ _ _ _ _ (PD.toDesc_valid d hwf) (optCur_wf _), optCur_toCur, PD.toDesc_toPD]
           simp [specDefine, hspec]
         simp [mechDefine_ok_post hm]
   · simp [h.define_wf k d s hwf]
 
-theorem layer_has (h : Lawful q T) : (L T).has = T.has := by
+theorem layer_define (h : Lawful q T) : (L T).define = T.define := by
+  funext k d s
+  exact layer_define_at h.toLawfulCore k d s (fun s' hr => h.define_inv k d s s' hr)
+
+theorem layer_has (h : LawfulCore q T) : (L T).has = T.has := by
   funext k s
   simp only [proxyLayer]
   rcases hr : T.has k s with ⟨r, s'⟩
@@ -299,7 +305,7 @@ theorem layer_has (h : Lawful q T) : (L T).has = T.has := by
           | typeError => simp [hh] at hm
     · simp
 
-theorem layer_get (h : Lawful q T) : (L T).get = T.get := by
+theorem layer_get (h : LawfulCore q T) : (L T).get = T.get := by
   funext k rcv s
   simp only [proxyLayer]
   rcases hr : T.get k rcv s with ⟨r, s'⟩
@@ -315,7 +321,7 @@ theorem layer_get (h : Lawful q T) : (L T).get = T.get := by
     | ok u => cases u; simp
     | typeError => simp [hh] at hm
 
-theorem layer_set (h : Lawful q T) : (L T).set = T.set := by
+theorem layer_set (h : LawfulCore q T) : (L T).set = T.set := by
   funext k v rcv s
   simp only [proxyLayer]
   rcases hr : T.set k v rcv s with ⟨r, s'⟩
@@ -333,7 +339,7 @@ theorem layer_set (h : Lawful q T) : (L T).set = T.set := by
       | ok u => cases u; simp
       | typeError => simp [hh] at hm
 
-theorem layer_delete (h : Lawful q T) : (L T).delete = T.delete := by
+theorem layer_delete (h : LawfulCore q T) : (L T).delete = T.delete := by
   funext k s
   simp only [proxyLayer]
   rcases hr : T.delete k s with ⟨r, s'⟩
@@ -357,16 +363,39 @@ theorem layer_delete (h : Lawful q T) : (L T).delete = T.delete := by
           | ok u => cases u; simp [hcf, hh]
           | typeError => simp [hh] at hm
 
-theorem layer_ownKeys (h : Lawful q T) : (L T).ownKeys = T.ownKeys := by
+theorem layer_ownKeys (h : LawfulCore q T) : (L T).ownKeys = T.ownKeys := by
   funext s
   simp only [proxyLayer, h.ownKeys_eq, h.isExt_eq, bindR_ok, ownKeys_honest (q.ext s) (q.keys s) (h.keys_nodup s)]
 
-/-- FORWARDING TRANSPARENCY, one layer: over a lawful object, the forwarding proxy's eleven internal methods
+theorem bindR_pure {σ α : Type} (m : R α × σ) : bindR m (fun a s => ((.ok a : R α), s)) = m := by
+  rcases m with ⟨r, s⟩
+  cases r <;> rfl
+
+theorem layer_call (h : LawfulCore q T) : (L T).call = T.call := by
+  funext this args s
+  simp only [proxyLayer]
+  cases hc : T.callable
+  · simp [h.call_nc hc]
+  · simp [bindR_pure]
+
+theorem layer_construct (h : LawfulCore q T) : (L T).construct = T.construct := by
+  funext args nt s
+  simp only [proxyLayer]
+  cases hc : T.constructor
+  · simp [h.construct_nc hc]
+  · simp only [Bool.not_true, Bool.false_eq_true, if_false]
+    rcases T.construct args nt s with ⟨r, s'⟩
+    cases r <;> rfl
+
+/-- FORWARDING TRANSPARENCY, one layer: over a lawful object, the forwarding proxy's internal methods — the eleven
+invariant-carrying ones, [[Call]], [[Construct]] — and its callability flags (typeof, IsCallable, IsConstructor)
 are the object's own — same result (value, boolean, descriptor, key list or TypeError) and same resulting
 state, for every argument and every state. -/
 theorem forwarding_transparent (h : Lawful q T) : L T = T :=
-  Ops.ext' (layer_getProto h) (layer_setProto h) (layer_isExt h) (layer_prevExt h) (layer_getOwn h)
-    (layer_define h) (layer_has h) (layer_get h) (layer_set h) (layer_delete h) (layer_ownKeys h)
+  Ops.ext' (layer_getProto h.toLawfulCore) (layer_setProto h.toLawfulCore) (layer_isExt h.toLawfulCore)
+    (layer_prevExt h.toLawfulCore) (layer_getOwn h.toLawfulCore) (layer_define h) (layer_has h.toLawfulCore)
+    (layer_get h.toLawfulCore) (layer_set h.toLawfulCore) (layer_delete h.toLawfulCore) (layer_ownKeys h.toLawfulCore)
+    rfl rfl (layer_call h.toLawfulCore) (layer_construct h.toLawfulCore)
 
 /-- ... lifted to any number of nested layers (induction on the number of layers) -/
 theorem forwarding_transparent_layers (h : Lawful q T) (n : Nat) :
@@ -386,29 +415,130 @@ so proxies may be used as targets -/
 theorem forwarding_lawful (h : Lawful q T) : Lawful q (L T) := by
   rw [forwarding_transparent h]; exact h
 
+/-! ### transparency on ADMISSIBLE inputs (`LawfulOn`): for objects whose [[DefineOwnProperty]] converts what it stores -/
+
+/-- which operations of a history are admissible in a state -/
+def Op.adm {σ : Type} (adm : Key → PD → σ → Prop) : Op → σ → Prop
+  | .define k d, s => adm k d s
+  | _, _ => True
+
+/-- every operation of the history is admissible in the state the TARGET is in when it is applied -/
+def admHist {σ : Type} (T : Ops σ) (adm : Key → PD → σ → Prop) : List Op → σ → Prop
+  | [], _ => True
+  | op :: rest, s => op.adm adm s ∧ admHist T adm rest (T.run op s).2
+
+variable {adm : Key → PD → σ → Prop}
+
+theorem layer_run_on (h : LawfulOn adm q T) (op : Op) (s : σ) (ha : op.adm adm s) : (L T).run op s = T.run op s := by
+  have c := h.toLawfulCore
+  cases op with
+  | define k d =>
+    simp only [Ops.run, layer_define_at c k d s (fun s' hr => h.define_inv_on k d s s' ha hr)]
+  | getProto => simp only [Ops.run, layer_getProto c]
+  | setProto p => simp only [Ops.run, layer_setProto c]
+  | isExt => simp only [Ops.run, layer_isExt c]
+  | prevExt => simp only [Ops.run, layer_prevExt c]
+  | getOwn k => simp only [Ops.run, layer_getOwn c]
+  | has k => simp only [Ops.run, layer_has c]
+  | get k r => simp only [Ops.run, layer_get c]
+  | set k v r => simp only [Ops.run, layer_set c]
+  | delete k => simp only [Ops.run, layer_delete c]
+  | ownKeys => simp only [Ops.run, layer_ownKeys c]
+  | call this args => simp only [Ops.run, layer_call c]; rfl
+  | construct args nt => simp only [Ops.run, layer_construct c]; rfl
+  | typeof => rfl
+
+/-- a forwarding layer over an object lawful on `adm` is lawful on `adm` -/
+theorem lawfulOn_layer (h : LawfulOn adm q T) : LawfulOn adm q (L T) := by
+  have c := h.toLawfulCore
+  have hdef : ∀ k d s, adm k d s → (L T).define k d s = T.define k d s :=
+    fun k d s ha => layer_define_at c k d s (fun s' hr => h.define_inv_on k d s s' ha hr)
+  refine { isExt_eq := ?_, getOwn_eq := ?_, getProto_eq := ?_, ownKeys_eq := ?_, keys_nodup := c.keys_nodup,
+           setProto_inv := ?_, prevExt_inv := ?_, define_wf := ?_, has_inv := ?_, get_inv := ?_, set_inv := ?_,
+           delete_inv := ?_, call_nc := ?_, construct_nc := ?_, define_inv_on := ?_ }
+  · rw [layer_isExt c]; exact c.isExt_eq
+  · rw [layer_getOwn c]; exact c.getOwn_eq
+  · rw [layer_getProto c]; exact c.getProto_eq
+  · rw [layer_ownKeys c]; exact c.ownKeys_eq
+  · rw [layer_setProto c]; exact c.setProto_inv
+  · rw [layer_prevExt c]; exact c.prevExt_inv
+  · intro k d s hwf
+    rw [layer_define_at c k d s (fun s' hr => by rw [c.define_wf k d s hwf] at hr; simp at hr)]
+    exact c.define_wf k d s hwf
+  · rw [layer_has c]; exact c.has_inv
+  · rw [layer_get c]; exact c.get_inv
+  · rw [layer_set c]; exact c.set_inv
+  · rw [layer_delete c]; exact c.delete_inv
+  · intro hc; rw [layer_call c]; exact c.call_nc hc
+  · intro hc; rw [layer_construct c]; exact c.construct_nc hc
+  · intro k d s s' ha hr
+    rw [hdef k d s ha] at hr
+    exact h.define_inv_on k d s s' ha hr
+
+/-- FORWARDING TRANSPARENCY on admissible inputs, n layers: every admissible operation on n forwarding layers over an
+object that is lawful on `adm` gives the target's result and the target's next state -/
+theorem forwarding_transparent_on (h : LawfulOn adm q T) (n : Nat) (op : Op) (s : σ) (ha : op.adm adm s) :
+    (stack isCompatible toValueProp (fun _ _ s => s) T n).run op s = T.run op s := by
+  induction n with
+  | zero => rfl
+  | succ n ih =>
+    have hl : LawfulOn adm q (stack isCompatible toValueProp (fun _ _ s => s) T n) := by
+      clear ih
+      induction n with
+      | zero => exact h
+      | succ m ihm => exact lawfulOn_layer ihm
+    simp only [stack]
+    rw [layer_run_on hl op s ha, ih]
+
+/-- … and for every history all of whose operations are admissible where the target meets them -/
+theorem forwarding_transparent_on_histories (h : LawfulOn adm q T) (n : Nat) (ops : List Op) :
+    ∀ (s : σ), admHist T adm ops s →
+      (stack isCompatible toValueProp (fun _ _ s => s) T n).runAll ops s = T.runAll ops s := by
+  induction ops with
+  | nil => intro s _; rfl
+  | cons op rest ih =>
+    intro s ha
+    simp only [Ops.runAll, forwarding_transparent_on h n op s ha.1]
+    rw [ih _ ha.2]
+
 end
 
-/-- REVOKED: every internal method of a revoked proxy throws TypeError, whatever the operation, the state and
-the (former) target; the state is untouched -/
+/-- REVOKED: every internal method of a revoked proxy throws TypeError — the eleven, [[Call]] and [[Construct]] —
+whatever the operation, the state and the (former) target; the state is untouched.  (`typeof` is not an internal
+method call: it reads the [[Call]] slot fixed at creation and never throws.) -/
 theorem revoked_throws_all {σ : Type} (compat : CompatFn) (tvp : Desc → VProp) (logf : Trap → σ → σ) (T : Ops σ)
-    (op : Op) (s : σ) :
+    (op : Op) (s : σ) (hop : op ≠ .typeof) :
     ((proxyObj compat tvp logf T true).run op s).1.isTypeError = true ∧
     ((proxyObj compat tvp logf T true).run op s).2 = s := by
-  cases op <;> simp [proxyObj, revokedOps, Ops.run, Obs.isTypeError]
+  cases op <;> simp [proxyObj, revokedOps, Ops.run, Obs.isTypeError] at hop ⊢
 
-/-- ... and a history on a revoked proxy is a list of TypeErrors -/
+/-- ... and a history of internal-method calls on a revoked proxy is a list of TypeErrors -/
 theorem revoked_history_all_throw {σ : Type} (compat : CompatFn) (tvp : Desc → VProp) (logf : Trap → σ → σ) (T : Ops σ)
-    (ops : List Op) (s : σ) :
+    (ops : List Op) (hops : ∀ op ∈ ops, op ≠ .typeof) (s : σ) :
     ∀ o ∈ ((proxyObj compat tvp logf T true).runAll ops s).1, o.isTypeError = true := by
   induction ops generalizing s with
   | nil => simp [Ops.runAll]
   | cons op rest ih =>
     intro o ho
+    have hop : op ≠ .typeof := hops op (by simp)
     simp only [Ops.runAll, List.mem_cons] at ho
     rcases ho with ho | ho
-    · rw [ho]; exact (revoked_throws_all compat tvp logf T op s).1
-    · rw [(revoked_throws_all compat tvp logf T op s).2] at ho
-      exact ih s o ho
+    · rw [ho]; exact (revoked_throws_all compat tvp logf T op s hop).1
+    · rw [(revoked_throws_all compat tvp logf T op s hop).2] at ho
+      exact ih (fun op' h' => hops op' (by simp [h'])) s o ho
+
+/-- typeof / IsCallable / IsConstructor of a proxy are those of its target, also after revocation (proxy.go:55-60, :1056) -/
+theorem callable_forwarded {σ : Type} (compat : CompatFn) (tvp : Desc → VProp) (logf : Trap → σ → σ) (T : Ops σ) (revoked : Bool) :
+    (proxyObj compat tvp logf T revoked).callable = T.callable ∧
+    (proxyObj compat tvp logf T revoked).constructor = T.constructor := by
+  cases revoked <;> simp [proxyObj, revokedOps, proxyLayer]
+
+/-- … through any number of layers -/
+theorem callable_forwarded_layers {σ : Type} (compat : CompatFn) (tvp : Desc → VProp) (logf : Nat → Trap → σ → σ) (T : Ops σ) (n : Nat) :
+    (stack compat tvp logf T n).callable = T.callable ∧ (stack compat tvp logf T n).constructor = T.constructor := by
+  induction n with
+  | zero => exact ⟨rfl, rfl⟩
+  | succ n ih => simpa [stack, proxyLayer] using ih
 
 /-- REGRESSION (commit 43d21ca, builtin_object.go:156): with the old toValueProp the honest descriptor of an accessor
 property that has neither a getter nor a setter function did not come back as that property -/
@@ -647,7 +777,8 @@ theorem forwarding_transparent_ordinary (E : Env) (n : Nat) (ops : List Op) (s :
 
 def demoEnv : Env :=
   { self := 1, inhHas := fun _ _ => false, inhGet := fun _ _ _ => .undef, inhSet := fun _ _ _ _ => none,
-    callGetter := fun _ _ => .num 1, cyc := fun _ => false }
+    callGetter := fun _ _ => .num 1, cyc := fun _ => false, callable := true, constructor := true,
+    callF := fun _ args s => (.ok (args.headD .undef), s), consF := fun _ _ s => (.ok 9, s) }
 
 /-- test (non-vacuity, and the model really mutates): through two forwarding layers, define a non-configurable
 property, fail to delete it, redefine it incompatibly (refused), read it, prevent extensions, fail to add -/
@@ -665,6 +796,116 @@ example :
   decide
 
 
+
+/-- test: typeof / call / construct through two layers over a function object -/
+example :
+    ((stack isCompatible toValueProp (fun _ _ s => s) (ordOps demoEnv) 2).runAll
+      [.typeof, .call .undef [.num 5], .construct [] (.obj 1)] { ext := true, proto := none, props := [] }).1 =
+    [.kind true true, .val (.ok (.num 5)), .obj (.ok 9)] := by
+  rw [forwarding_transparent_ordinary]
+  decide
+
+/-! ## exotic targets -/
+
+/-- the String wrapper, and any ordinary object extended by a fixed block of non-writable, non-configurable data
+properties synthesised by an exotic [[GetOwnProperty]] (§10.4.3), is lawful -/
+theorem string_wrapper_lawful (E : Env) (fx : Fixed) : Lawful (fixedQueries fx) (fixedOps E fx) := fixed_lawful E fx
+
+/-- … hence n forwarding layers over `new String(units)` are transparent for every history -/
+theorem forwarding_transparent_string (E : Env) (idx : Nat → Key) (lenKey : Key) (units : List Val) (n : Nat)
+    (ops : List Op) (s : OState) :
+    (stack isCompatible toValueProp (fun _ _ s => s) (fixedOps E (stringFixed idx lenKey units)) n).runAll ops s =
+      (fixedOps E (stringFixed idx lenKey units)).runAll ops s :=
+  forwarding_transparent_histories (string_wrapper_lawful E _) n ops s
+
+/-- a function object is an ordinary object with [[Call]] / [[Construct]] (`Env.callable`, `Env.constructor`): n layers
+over it forward `typeof`, calls and constructions as well as the eleven other methods -/
+theorem forwarding_transparent_function (E : Env) (n : Nat) (ops : List Op) (s : OState) :
+    (stack isCompatible toValueProp (fun _ _ s => s) (ordOps E) n).runAll ops s = (ordOps E).runAll ops s ∧
+    (stack isCompatible toValueProp (fun _ _ s => s) (ordOps E) n).callable = E.callable ∧
+    (stack isCompatible toValueProp (fun _ _ s => s) (ordOps E) n).constructor = E.constructor := by
+  refine ⟨forwarding_transparent_ordinary E n ops s, ?_⟩
+  have := callable_forwarded_layers isCompatible toValueProp (fun (_ : Nat) (_ : Trap) (s : OState) => s) (ordOps E) n
+  simpa [ordOps] using this
+
+/-- the Integer-Indexed exotic object (typed array, §10.4.5: element block addressed by numeric keys, stored values
+converted, out-of-range numeric keys inexistent) is lawful -/
+theorem typedarray_lawful (T : TEnv) : Lawful (taQueries T) (taOps T) := ta_lawful T
+
+theorem forwarding_transparent_typedarray (T : TEnv) (n : Nat) (ops : List Op) (s : TState) :
+    (stack isCompatible toValueProp (fun _ _ s => s) (taOps T) n).runAll ops s = (taOps T).runAll ops s :=
+  forwarding_transparent_histories (typedarray_lawful T) n ops s
+
+/-- the mapped arguments exotic object (§10.4.4: index properties aliased to the formal parameters through the parameter
+map, unmapped by accessor / non-writable redefinition and by delete) is lawful; a strict (unmapped) arguments object is an
+ordinary object (`ordObj_lawful`) -/
+theorem arguments_lawful (E : Env) : Lawful argQueries (argOps E) := arg_lawful E
+
+theorem forwarding_transparent_arguments (E : Env) (n : Nat) (ops : List Op) (s : MState) :
+    (stack isCompatible toValueProp (fun _ _ s => s) (argOps E) n).runAll ops s = (argOps E).runAll ops s :=
+  forwarding_transparent_histories (arguments_lawful E) n ops s
+
+/-- test: through two layers over `arguments` of f(a=10, b=20): read the mapped value, write it (the parameter changes),
+redefine index 0 non-writable (mapping removed, value frozen), fail to write, delete index 1 -/
+example :
+    ((stack isCompatible toValueProp (fun _ _ s => s) (argOps demoEnv) 2).runAll
+      [.get (.str 1) (.obj 1), .set (.str 1) (.num 11) (.obj 1), .get (.str 1) (.obj 1),
+       .define (.str 1) { value := none, writable := some false, get := none, set := none, enumerable := none, configurable := none },
+       .set (.str 1) (.num 12) (.obj 1), .getOwn (.str 1), .delete (.str 2), .has (.str 2)]
+      { o := { ext := true, proto := none, props := [(.str 1, .data (.num 10) true true true), (.str 2, .data (.num 20) true true true)] },
+        map := [(.str 1, 0), (.str 2, 1)], params := [.num 10, .num 20] }).1 =
+    [.val (.ok (.num 10)), .bool (.ok true), .val (.ok (.num 11)), .bool (.ok true), .bool (.ok false),
+     .desc (.ok (some (.data (.num 11) false true true))), .bool (.ok true), .bool (.ok false)] := by
+  rw [forwarding_transparent_arguments]
+  decide
+
+/-- the Array exotic object (§10.4.2: ArraySetLength with conversion and truncation, index definitions bumping `length`)
+is lawful on its admissible inputs: `length` descriptors whose value is already the canonical uint32 number -/
+theorem array_lawfulOn (A : AEnv) : LawfulOn (arrAdm A) (arrQueries A) (arrOps A) := arr_lawfulOn A
+
+/-- … hence n forwarding layers over an array are transparent for every history whose `length` definitions are canonical -/
+theorem forwarding_transparent_array (A : AEnv) (n : Nat) (ops : List Op) (s : AState)
+    (ha : admHist (arrOps A) (arrAdm A) ops s) :
+    (stack isCompatible toValueProp (fun _ _ s => s) (arrOps A) n).runAll ops s = (arrOps A).runAll ops s :=
+  forwarding_transparent_on_histories (array_lawfulOn A) n ops s ha
+
+def demoArr : AEnv :=
+  { E := demoEnv, lenKey := .str 0, idxOf := fun k => match k with | .str (n + 1) => some n | _ => none,
+    toLen := fun v => match v with
+      | .num n => if 0 ≤ n then some n.toNat else none
+      | .str 33 => some 3                     -- the string "3": ToUint32("3") = ToNumber("3") = 3
+      | _ => none }
+
+/-- SPEC-MANDATED NON-TRANSPARENCY (why `LawfulOn` and not `Lawful` for arrays): defining `length` with a value that
+ArraySetLength CONVERTS (here the string "3") together with `writable: false` succeeds on the array but leaves
+`length = 3`, which is not SameValue to "3": the essential invariant phrased through §10.5.6 fails, and by §10.5.6 step
+16.a a forwarding proxy throws TypeError where the array answers true. -/
+theorem arr_noncanonical_length_witness : ¬ Lawful (arrQueries demoArr) (arrOps demoArr) := by
+  intro h
+  have := h.define_inv (.str 0)
+    { value := some (.str 33), writable := some false, get := none, set := none, enumerable := none, configurable := none }
+    { o := { ext := true, proto := none, props := [] }, len := 5, lenW := true }
+    { o := { ext := true, proto := none, props := [] }, len := 3, lenW := false } (by decide)
+  revert this
+  decide
+
+/-- test: an admissible history on an array through two layers — define index 4 (length becomes 5), shrink `length` to
+2 with a non-configurable element at index 3 in the way (fails, stops at 4), freeze `length`, fail to append -/
+example :
+    ((stack isCompatible toValueProp (fun _ _ s => s) (arrOps demoArr) 2).runAll
+      [.define (.str 5) { value := some (.num 7), writable := some true, get := none, set := none, enumerable := some true, configurable := some true },
+       .define (.str 4) { value := some (.num 8), writable := some true, get := none, set := none, enumerable := some true, configurable := some false },
+       .get (.str 0) .undef,
+       .define (.str 0) { value := some (.num 2), writable := none, get := none, set := none, enumerable := none, configurable := none },
+       .get (.str 0) .undef,
+       .define (.str 0) { value := none, writable := some false, get := none, set := none, enumerable := none, configurable := none },
+       .set (.str 9) (.num 1) (.obj 1)]
+      { o := { ext := true, proto := none, props := [] }, len := 0, lenW := true }).1 =
+    [.bool (.ok true), .bool (.ok true), .val (.ok (.num 5)), .bool (.ok false), .val (.ok (.num 4)), .bool (.ok true),
+     .bool (.ok false)] := by
+  rw [forwarding_transparent_array demoArr 2 _ _ (by simp [admHist, Op.adm, arrAdm, demoArr])]
+  decide
+
 /-! ## forwarding transparency WITH trap logging
 
 The theorems above switch the trap log off.  Here every layer `i` appends `(i, trap)` to a log kept next to the base
@@ -678,7 +919,7 @@ variable {β : Type} {q : Queries β} {B : Ops β} {A : Ops (β × TLog)}
 
 local notation "LL" i => proxyLayer isCompatible toValueProp (logAt i)
 
-theorem simLog_isExt (h : Lawful q B) (hs : SimLog A B) (i : Nat) :
+theorem simLog_isExt (h : LawfulCore q B) (hs : SimLog A B) (i : Nat) :
     ∀ b l, ∃ l', ((LL i) A).isExt (b, l) = ((B.isExt b).1, ((B.isExt b).2, l')) := by
   intro b l
   simp only [proxyLayer, logAt]
@@ -691,7 +932,7 @@ theorem simLog_isExt (h : Lawful q B) (hs : SimLog A B) (i : Nat) :
   cases q.ext b <;> exact ⟨l2, by simp [mechIsExtensible]⟩
 
 
-theorem simLog_getProto (h : Lawful q B) (hs : SimLog A B) (i : Nat) :
+theorem simLog_getProto (h : LawfulCore q B) (hs : SimLog A B) (i : Nat) :
     ∀ b l, ∃ l', ((LL i) A).getProto (b, l) = ((B.getProto b).1, ((B.getProto b).2, l')) := by
   intro b l
   simp only [proxyLayer, logAt]
@@ -709,7 +950,7 @@ theorem simLog_getProto (h : Lawful q B) (hs : SimLog A B) (i : Nat) :
     exact ⟨l3, by cases q.proto b <;> simp [mechGetProto, toObject?, sameObj]⟩
   · exact ⟨l2, by simp⟩
 
-theorem simLog_setProto (h : Lawful q B) (hs : SimLog A B) (i : Nat) :
+theorem simLog_setProto (h : LawfulCore q B) (hs : SimLog A B) (i : Nat) :
     ∀ p b l, ∃ l', ((LL i) A).setProto p (b, l) = ((B.setProto p b).1, ((B.setProto p b).2, l')) := by
   intro p b l
   simp only [proxyLayer, logAt]
@@ -734,7 +975,7 @@ theorem simLog_setProto (h : Lawful q B) (hs : SimLog A B) (i : Nat) :
           exact ⟨l3, by simp [mechSetProto, sameObj, hp]⟩
         · exact ⟨l2, by simp⟩
 
-theorem simLog_prevExt (h : Lawful q B) (hs : SimLog A B) (i : Nat) :
+theorem simLog_prevExt (h : LawfulCore q B) (hs : SimLog A B) (i : Nat) :
     ∀ b l, ∃ l', ((LL i) A).prevExt (b, l) = ((B.prevExt b).1, ((B.prevExt b).2, l')) := by
   intro b l
   simp only [proxyLayer, logAt]
@@ -751,7 +992,7 @@ theorem simLog_prevExt (h : Lawful q B) (hs : SimLog A B) (i : Nat) :
       rw [h2, h.isExt_eq]
       exact ⟨l2, by simp [h.prevExt_inv b b' hr, mechPreventExtensions]⟩
 
-theorem simLog_getOwn (h : Lawful q B) (hs : SimLog A B) (i : Nat) :
+theorem simLog_getOwn (h : LawfulCore q B) (hs : SimLog A B) (i : Nat) :
     ∀ k b l, ∃ l', ((LL i) A).getOwn k (b, l) = ((B.getOwn k b).1, ((B.getOwn k b).2, l')) := by
   intro k b l
   simp only [proxyLayer, logAt]
@@ -769,7 +1010,7 @@ theorem simLog_getOwn (h : Lawful q B) (hs : SimLog A B) (i : Nat) :
     refine ⟨l3, ?_⟩
     simp [optCurToTProp, h3, h.isExt_eq, hr, TProp.toOptCur, hrc]
 
-theorem simLog_ownKeys (h : Lawful q B) (hs : SimLog A B) (i : Nat) :
+theorem simLog_ownKeys (h : LawfulCore q B) (hs : SimLog A B) (i : Nat) :
     ∀ b l, ∃ l', ((LL i) A).ownKeys (b, l) = ((B.ownKeys b).1, ((B.ownKeys b).2, l')) := by
   intro b l
   simp only [proxyLayer, logAt]
@@ -812,7 +1053,7 @@ theorem simLog_define (h : Lawful q B) (hs : SimLog A B) (i : Nat) :
         simp [mechDefine_ok_post hm]
   · exact ⟨l1, by simp [h.define_wf k d b hwf]⟩
 
-theorem simLog_has (h : Lawful q B) (hs : SimLog A B) (i : Nat) :
+theorem simLog_has (h : LawfulCore q B) (hs : SimLog A B) (i : Nat) :
     ∀ k b l, ∃ l', ((LL i) A).has k (b, l) = ((B.has k b).1, ((B.has k b).2, l')) := by
   intro k b l
   simp only [proxyLayer, logAt]
@@ -844,7 +1085,7 @@ theorem simLog_has (h : Lawful q B) (hs : SimLog A B) (i : Nat) :
           | typeError => simp [hh] at hm
     · exact ⟨l1, by simp⟩
 
-theorem simLog_get (h : Lawful q B) (hs : SimLog A B) (i : Nat) :
+theorem simLog_get (h : LawfulCore q B) (hs : SimLog A B) (i : Nat) :
     ∀ k r b l, ∃ l', ((LL i) A).get k r (b, l) = ((B.get k r b).1, ((B.get k r b).2, l')) := by
   intro k rcv b l
   simp only [proxyLayer, logAt]
@@ -867,7 +1108,7 @@ theorem simLog_get (h : Lawful q B) (hs : SimLog A B) (i : Nat) :
     | ok u => cases u; simp
     | typeError => simp [hh] at hm
 
-theorem simLog_set (h : Lawful q B) (hs : SimLog A B) (i : Nat) :
+theorem simLog_set (h : LawfulCore q B) (hs : SimLog A B) (i : Nat) :
     ∀ k v r b l, ∃ l', ((LL i) A).set k v r (b, l) = ((B.set k v r b).1, ((B.set k v r b).2, l')) := by
   intro k v rcv b l
   simp only [proxyLayer, logAt]
@@ -892,7 +1133,7 @@ theorem simLog_set (h : Lawful q B) (hs : SimLog A B) (i : Nat) :
       | ok u => cases u; simp
       | typeError => simp [hh] at hm
 
-theorem simLog_delete (h : Lawful q B) (hs : SimLog A B) (i : Nat) :
+theorem simLog_delete (h : LawfulCore q B) (hs : SimLog A B) (i : Nat) :
     ∀ k b l, ∃ l', ((LL i) A).delete k (b, l) = ((B.delete k b).1, ((B.delete k b).2, l')) := by
   intro k b l
   simp only [proxyLayer, logAt]
@@ -924,19 +1165,47 @@ theorem simLog_delete (h : Lawful q B) (hs : SimLog A B) (i : Nat) :
           | ok u => cases u; simp [hcf, h3, h.isExt_eq, hh]
           | typeError => simp [hh] at hm
 
+theorem simLog_call (h : LawfulCore q B) (hs : SimLog A B) (i : Nat) :
+    ∀ this args b l, ∃ l', ((LL i) A).call this args (b, l) = ((B.call this args b).1, ((B.call this args b).2, l')) := by
+  intro this args b l
+  simp only [proxyLayer, logAt, hs.callable]
+  cases hc : B.callable
+  · exact ⟨l, by simp [h.call_nc hc]⟩
+  · obtain ⟨l1, h1⟩ := hs.call this args b (l ++ [(i, .apply)])
+    refine ⟨l1, ?_⟩
+    simp only [Bool.not_true, Bool.false_eq_true, if_false, h1]
+    rcases B.call this args b with ⟨r, b'⟩
+    cases r <;> rfl
+
+theorem simLog_construct (h : LawfulCore q B) (hs : SimLog A B) (i : Nat) :
+    ∀ args nt b l, ∃ l', ((LL i) A).construct args nt (b, l) = ((B.construct args nt b).1, ((B.construct args nt b).2, l')) := by
+  intro args nt b l
+  simp only [proxyLayer, logAt, hs.constructor]
+  cases hc : B.constructor
+  · exact ⟨l, by simp [h.construct_nc hc]⟩
+  · obtain ⟨l1, h1⟩ := hs.construct args nt b (l ++ [(i, .construct)])
+    refine ⟨l1, ?_⟩
+    simp only [Bool.not_true, Bool.false_eq_true, if_false, h1]
+    rcases B.construct args nt b with ⟨r, b'⟩
+    cases r <;> rfl
+
 /-- one logging forwarding layer preserves "behaves as B up to the log" -/
 theorem simLog_layer (h : Lawful q B) (hs : SimLog A B) (i : Nat) : SimLog ((LL i) A) B where
-  getProto := simLog_getProto h hs i
-  setProto := simLog_setProto h hs i
-  isExt := simLog_isExt h hs i
-  prevExt := simLog_prevExt h hs i
-  getOwn := simLog_getOwn h hs i
+  getProto := simLog_getProto h.toLawfulCore hs i
+  setProto := simLog_setProto h.toLawfulCore hs i
+  isExt := simLog_isExt h.toLawfulCore hs i
+  prevExt := simLog_prevExt h.toLawfulCore hs i
+  getOwn := simLog_getOwn h.toLawfulCore hs i
   define := simLog_define h hs i
-  has := simLog_has h hs i
-  get := simLog_get h hs i
-  set := simLog_set h hs i
-  delete := simLog_delete h hs i
-  ownKeys := simLog_ownKeys h hs i
+  has := simLog_has h.toLawfulCore hs i
+  get := simLog_get h.toLawfulCore hs i
+  set := simLog_set h.toLawfulCore hs i
+  delete := simLog_delete h.toLawfulCore hs i
+  ownKeys := simLog_ownKeys h.toLawfulCore hs i
+  callable := by simp [proxyLayer, hs.callable]
+  constructor := by simp [proxyLayer, hs.constructor]
+  call := simLog_call h.toLawfulCore hs i
+  construct := simLog_construct h.toLawfulCore hs i
 
 theorem simLog_lift (B : Ops β) : SimLog (liftOps B) B where
   getProto := fun _ l => ⟨l, rfl⟩
@@ -950,6 +1219,10 @@ theorem simLog_lift (B : Ops β) : SimLog (liftOps B) B where
   set := fun _ _ _ _ l => ⟨l, rfl⟩
   delete := fun _ _ l => ⟨l, rfl⟩
   ownKeys := fun _ l => ⟨l, rfl⟩
+  callable := rfl
+  constructor := rfl
+  call := fun _ _ _ l => ⟨l, rfl⟩
+  construct := fun _ _ _ l => ⟨l, rfl⟩
 
 theorem simLog_stack (h : Lawful q B) (n : Nat) :
     SimLog (stack isCompatible toValueProp (fun i => logAt i) (liftOps B) n) B := by
@@ -971,6 +1244,15 @@ theorem simLog_run (hs : SimLog A B) (op : Op) (b : β) (l : TLog) :
   | set k v r => obtain ⟨l', e⟩ := hs.set k v r b l; simp [Ops.run, e]
   | delete k => obtain ⟨l', e⟩ := hs.delete k b l; simp [Ops.run, e]
   | ownKeys => obtain ⟨l', e⟩ := hs.ownKeys b l; simp [Ops.run, e]
+  | call this args =>
+    obtain ⟨l', e⟩ := hs.call this args b l
+    simp only [Ops.run, hs.callable]
+    cases B.callable <;> simp [e]
+  | construct args nt =>
+    obtain ⟨l', e⟩ := hs.construct args nt b l
+    simp only [Ops.run, hs.constructor]
+    cases B.constructor <;> simp [e]
+  | typeof => simp [Ops.run, hs.callable, hs.constructor]
 
 theorem simLog_runAll (hs : SimLog A B) (ops : List Op) : ∀ (b : β) (l : TLog),
     (A.runAll ops (b, l)).1 = (B.runAll ops b).1 ∧ (A.runAll ops (b, l)).2.1 = (B.runAll ops b).2 := by
